@@ -7,11 +7,13 @@ EXTENDS RATied, TLC
 CONSTANTS MaxOps, Bug
 VARIABLES hist, asked     \* asked[w] = set of use masks given for w by add() so far
 mcvars == <<wg, tb, hist, asked>>
-MCwg == <<0, 0, 1>>
+MCwg == <<0, 1>>
 Ws == 0 .. Len(MCwg) - 1
 (* ["add", w, flagsLo, flagsHi, useMask, useId, useRw, outMask, outId, outRw, rm, parent] *)
 Ops == UNION {
-  {<<"add", w, fl, 0, um, uid, 1, om, oid, 2, rm, -1>> : w \in Ws, fl \in {5, 7, 10}, um \in {3, 6}, uid \in {255, 1}, om \in {7}, oid \in {255, 2}, rm \in {0, 8}},
+  {<<"add", w, 5, 0, um, uid, 1, 7, 255, 2, rm, -1>> : w \in Ws, um \in {3, 6}, uid \in {255, 1}, rm \in {0, 8}},     \* read / use
+  {<<"add", w, 10, 0, 7, 255, 1, 5, oid, 2, 0, -1>> : w \in Ws, oid \in {255, 2}},                                 \* write / out
+  {<<"add", w, 7, 0, 3, 255, 4, 7, 255, 2, 0, -1>> : w \in Ws},                                                   \* read-write / use
   {<<"arg", w, p>> : w \in Ws, p \in {1, 2}}, {<<"ret", w, p>> : w \in Ws, p \in {0}},
   {<<"ro", w>> : w \in Ws}, {<<"wo", w>> : w \in Ws}, {<<"reset", 0>>} }
 Res(op) == IF op[1] = "add" THEN (IF AddErr(op[2], op[6], op[9], op[12]) THEN "Err" ELSE "Ok")
